@@ -11,6 +11,7 @@
     cache_flag_honoured filter_chain_order ws_filter_args xml_namespace_const
     strip_is_norm_of_runs merge_only_unobservable_partial strip_only_whitespace_partial
     wsNorm_deletes_only_ws noescape_agree_html_vocab strip_namespace_witness
+    preserve_table_is_spec noescape_table_is_spec
 -/
 import Genshi.Lemmas.Output
 import Genshi.Lemmas.OutputFlatten
@@ -160,6 +161,20 @@ theorem ws_filter_args :
       [Method.xml, Method.xhtml, Method.html].map
         (fun m => (methodName m, ((wsCfg m).preserve, (wsCfg m).noescape, (wsCfg m).cdata)))) = true := by
   decide
+
+/-- whitespace-preserving elements: `pre` and `textarea`, un-namespaced and XHTML, for the two HTML
+    methods; none for xml (only `xml:space="preserve"`) -/
+theorem preserve_table_is_spec :
+    Gen.Output.htmlPreserveSpace =
+      [([], ['p','r','e']), ([], ['t','e','x','t','a','r','e','a']), (xhtmlNs, ['p','r','e']),
+       (xhtmlNs, ['t','e','x','t','a','r','e','a'])] ∧
+    Gen.Output.xhtmlPreserveSpace = Gen.Output.htmlPreserveSpace ∧ Gen.Output.xmlPreserveSpace = [] := by decide
+
+/-- raw-text elements of html: `script` and `style`, un-namespaced and XHTML -/
+theorem noescape_table_is_spec :
+    Gen.Output.htmlNoescapeElems =
+      [([], ['s','c','r','i','p','t']), ([], ['s','t','y','l','e']), (xhtmlNs, ['s','c','r','i','p','t']),
+       (xhtmlNs, ['s','t','y','l','e'])] := by decide
 
 theorem xml_namespace_const :
     xmlNs = Gen.OutputExtra.xmlNamespace ∧ xmlSpaceQ.ns = Gen.OutputExtra.xmlNamespace := by decide
